@@ -388,6 +388,24 @@ func (c *Conc) SignRaw(author string, createdAt, kind int64, tags []mocrelay.Tag
 	}
 }
 
+// SignOver signs an arbitrary serialisation of the given fields (a non-canonical form a lenient
+// verifier might accept) with the key of author: id = sha256(ser), sig = a genuine signature of that id.
+func (c *Conc) SignOver(author string, createdAt, kind int64, tags []mocrelay.Tag, content string, ser func(pub string) []byte) *mocrelay.Event {
+	kp := c.key(author)
+	if tags == nil {
+		tags = []mocrelay.Tag{}
+	}
+	h := sha256.Sum256(ser(kp.pub))
+	sig, err := schnorr.Sign(kp.priv, h[:])
+	if err != nil {
+		panic(err)
+	}
+	return &mocrelay.Event{
+		ID: hex.EncodeToString(h[:]), Pubkey: kp.pub, CreatedAt: createdAt, Kind: kind, Tags: tags, Content: content,
+		Sig: hex.EncodeToString(sig.Serialize()),
+	}
+}
+
 // FilterJSON renders the concrete JSON text of an abstract filter.
 func (c *Conc) FilterJSON(f Filter) []byte {
 	obj := map[string]any{}
